@@ -71,6 +71,10 @@ class Gen:
         out = []
         for _ in range(k):
             n = self.pick_node(model, p_existing)
+            if isinstance(n, tuple):
+                # node labels that are tuples (they arise as nodes of a dual) are never sent
+                # through member lists: the bulk formats read a leading tuple as a members list
+                n = self.r.choice(self.node_u())
             if n not in out:
                 out.append(n)
         return out
